@@ -114,3 +114,6 @@ Definition curinfo_of_tree (t : tree) : curinfo :=
   {| ci_id := t_int (t_nth 0 t); ci_name := t_bytes (t_nth 1 t); ci_cmd := t_int (t_nth 2 t);
      ci_status := t_int (t_nth 3 t); ci_rownum := t_int (t_nth 4 t); ci_totalrows := t_int (t_nth 5 t);
      ci_rowcount := t_int (t_nth 6 t) |}.
+
+Lemma curinfo_of_tree_tree c : curinfo_of_tree (curinfo_tree c) = c.
+Proof. destruct c; reflexivity. Qed.
